@@ -112,5 +112,18 @@ CHECKS = {
           "with std::unordered_set over histories is not decided.",
   "note": "Trusted: clang 14 CFG; the fixed table's own iteration (find_first_non_empty) is not analysed.",
   "technique": "static analysis: traversal-progress, flow-sensitive provenance, special-member completeness and who-sizes-from-what rules over CFG facts"},
+ "C06": {
+  "text": "Decides the resource-flow and ordering clauses of the monotonic resources: every page from the page allocator is stored into a "
+          "page-array slot on all paths; every oversize block is recorded with exactly the size/alignment expressions passed upstream (not "
+          "re-assigned in between); release destructs before returning memory, hands the page allocator a local copy of the pointers, "
+          "returns oversize blocks with the recorded triple, zeroes the accounting; the shared variant destructs all before releasing any; "
+          "the swiss variant drops the arena pointer first; destruct_all pairs each task's destructor with its pointer and advances along "
+          "the chain; user-provided move members transfer every member and data-carrying base (violated by the original tree: finding F3, "
+          "replayed and fixed); constant indices agree with the capacity of the in-page arrays. A block returned with the wrong size, twice "
+          "or never is visible only with an instrumented allocator over long histories. Block disjointness / alignment arithmetic / overlap "
+          "with in-page bookkeeping are numeric and explicitly not decided.",
+  "note": "Trusted: clang 14 CFG; PageAllocator and std::pmr upstream are opaque; SanitizerHelper calls are value-transparent helpers.",
+  "technique": "static analysis: resource-flow (acquire -> register on all paths), expression agreement with reaching definitions, ordering/dominance, "
+               "special-member completeness and constant/capacity agreement over CFG facts"},
 }
 NOT_APPLICABLE = {("C%02d" % i): PENDING for i in range(1, 21) if ("C%02d" % i) not in CHECKS}
